@@ -46,6 +46,19 @@ Definition subsec_init (c : actx) (offset : Z) : res mobj :=
   do (length, r0) <- p_word (c_le c) (seek (c_img c) offset);
   do (vendor, r1) <- p_ntbs r0;
   Ok (MSubsec offset length vendor (tell (c_img c) r1)).
+(* subsec['length'], subsubsec.header.value: what the walk adds to its offset *)
+Definition obj_length (o : mobj) : res Z :=
+  match o with
+  | MSec _ => Err (EPy "TypeError")
+  | MSubsec _ length _ _ => Ok length
+  | MSubsub _ header _ => attr_int_value header
+  end.
+Definition obj_view (o : mobj) : view :=
+  match o with
+  | MSec _ => VSubsec 0 []
+  | MSubsec _ length vendor _ => VSubsec length vendor
+  | MSubsub _ header _ => VSubsub header
+  end.
 
 (* stream.seek(offset); AttributesSubsubsection.__init__(stream, structs, offset, attribute):
      self.header = self.attribute(self.structs, self.stream)
@@ -86,22 +99,15 @@ Definition mstep (c : actx) (owner : mobj) (offset : Z) : wstep (item mobj * Z) 
   match owner with
   | MSec _ =>
       if offset =? c_sh_offset c + c_sh_size c then WStop
-      else match subsec_init c offset with
+      else match (do subsec <- subsec_init c offset; do length <- obj_length subsec; Ok (subsec, length)) with
            | Err e => WRaise e
-           | Ok (MSubsec o length vendor start) =>
-               WYield ((Some (MSubsec o length vendor start), VSubsec length vendor), offset + length)
-           | Ok _ => WRaise (EPy "unreachable")
+           | Ok (subsec, length) => WYield ((Some subsec, obj_view subsec), offset + length)
            end
   | MSubsec o length _ _ =>
       if offset =? o + length then WStop
-      else match subsubsec_init c offset with
+      else match (do subsubsec <- subsubsec_init c offset; do size <- obj_length subsubsec; Ok (subsubsec, size)) with
            | Err e => WRaise e
-           | Ok (MSubsub o' header astart) =>
-               match attr_int_value header with
-               | Err e => WRaise e
-               | Ok size => WYield ((Some (MSubsub o' header astart), VSubsub header), offset + size)
-               end
-           | Ok _ => WRaise (EPy "unreachable")
+           | Ok (subsubsec, size) => WYield ((Some subsubsec, obj_view subsubsec), offset + size)
            end
   | MSubsub o header _ =>
       match attr_int_value header with
